@@ -423,6 +423,298 @@ template<class B> int rt_short(const B& b, std::string_view first, std::string_v
     body.append("}); return 0; }")
     return "\n".join(parts + body)
 
+
+# ---- a BIG grammar (hundreds of LR(1) states, ~50 terms of three kinds, error rule): C08 / C12 ----------------------------------
+# stmt_i <- kw_i expr end_i ';'   for K contexts: the expression states are duplicated per context (different lookahead), so canonical LR(1)
+# needs about 14*K states - state numbers far beyond 255. Values are checked against an independent evaluation of the text in python.
+def big_grammar_source(K, texts):
+    kws = ["kw%02d" % i for i in range(K)]
+    ends = ["e%02d" % i if i % 3 else chr(ord('A') + i // 3) for i in range(K)]      # string terms and (every third) char terms
+    parts = [PRELUDE, "#include <vector>\nnamespace big {\nconstexpr char numpat[] = \"[0-9]+\"; constexpr regex_term<numpat> num(\"num\");\n"
+             "constexpr nterm<std::vector<long>> prog(\"prog\"); constexpr nterm<long> stmt(\"stmt\"), expr(\"expr\"), term(\"term\");\n"
+             "struct lim { static const size_t state_count_cap = %d; static const size_t max_sit_count_per_state_cap = %d; };" % (K * 20 + 150, (2 * K + 2) * (K + 3) + 200)]
+    for i in range(K):
+        if i % 3:
+            parts.append('constexpr string_term E%d("%s");' % (i, ends[i]))
+        else:
+            parts.append("constexpr char_term E%d('%s');" % (i, ends[i]))
+    rules = ["prog() >= ftors::create<std::vector<long>>{}",
+             "prog(prog, stmt) >= [](std::vector<long>&& l, long v) { l.push_back(v); return std::move(l); }",
+             "stmt(error, ';') >= ftors::val(-1L)",
+             "expr(term)",
+             "expr(expr, '+', term) >= [](long a, skip, long b) { return (a + b) % 1000; }",
+             "term(num) >= [](std::string_view sv) { long v = 0; for (char c : sv) v = (v * 10 + (c - '0')) % 1000; return v; }",
+             "term('(', expr, ')') >= ftors::_e2",
+             "term('(', error, ')') >= ftors::val(995L)"]        # an error rule deep inside: its error-shift targets are discovered late (high state numbers)
+    for i in range(K):
+        rules.append('stmt("%s", expr, E%d, \';\') >= [](skip, long v, skip, skip) { return %dL + v; }' % (kws[i], i, i * 1000))
+        rules.append('stmt("%s", error, E%d, \';\') >= ftors::val(%dL)' % (kws[i], i, -(i + 2)))      # an error rule in every context: error-shift targets spread over the state numbers
+    terms = ["num", "'+'", "'('", "')'", "';'"] + ['"%s"' % k for k in kws] + ["E%d" % i for i in range(K)]
+    parts.append("inline const auto& the_parser() { static const auto* p = new parser(prog, terms(%s), nterms(prog, stmt, expr, term), rules(\n  %s), use_generated_lexer{}, lim{}); return *p; }"
+                 % (", ".join(terms), ",\n  ".join(rules)))
+    parts.append("}")
+    body = ['int main() { hh::big_stack([] { try { const auto& p = big::the_parser(); std::ostringstream dg; p.write_diag_str(dg); std::string d = dg.str(); size_t pos = d.find("Number of states: "); std::printf("BIGINFO states=%s\\n", pos == std::string::npos ? "?" : d.substr(pos + 18, d.find("(", pos) - pos - 18).c_str());']
+    for k, t in enumerate(texts):
+        b = t["text"].encode()
+        body.append('  try { static const char lit[] = %s; std::ostringstream os; auto r = p.parse(parse_options{}, string_view_buffer(std::string_view(lit, %d)), os); unsigned long long h = 0x51ed; size_t n = 0; if (r.has_value()) { n = r.value().size(); for (long v : r.value()) h = hh::hcomb(h, (unsigned long long)(v + 7)); }'
+                    ' size_t ne = 0; { std::string e = os.str(); for (size_t q = e.find("Syntax error"); q != std::string::npos; q = e.find("Syntax error", q + 1)) ++ne; } std::printf("BIG %d acc=%%d n=%%zu h=%%llu errs=%%zu\\n", r.has_value() ? 1 : 0, n, h, ne); } catch (const std::exception& e) { std::printf("BIGX %d %%s\\n", e.what()); }' % (cstr(b), len(b), k, k))
+    body.append('  } catch (const std::exception& e) { std::printf("BIGEXC %s\\n", e.what()); } }); return 0; }')
+    # the constructor's frame holds the whole state analyzer: with these limits it needs more than the prelude's 512 MB of (virtual) stack
+    return "\n".join(parts + body).replace("size_t(1) << 29", "size_t(1) << 32"), kws, ends
+
+
+_BIG_TABLES = {}
+
+
+def big_tables(kws, ends):
+    """canonical LR(1) tables of the big grammar, built here from the textbook construction (independent of the library); no conflicts may arise"""
+    key = (tuple(kws), tuple(ends))
+    if key in _BIG_TABLES:
+        return _BIG_TABLES[key]
+    K = len(kws)
+    # rule = (lhs, rhs tuple, semantic tag)
+    R = [("S'", ("prog",), None), ("prog", (), ("list0",)), ("prog", ("prog", "stmt"), ("append",)), ("stmt", ("error", ";"), ("val", -1)),
+         ("expr", ("term",), ("e", 0)), ("expr", ("expr", "+", "term"), ("add",)), ("term", ("num",), ("num",)),
+         ("term", ("(", "expr", ")"), ("e", 1)), ("term", ("(", "error", ")"), ("val", 995))]
+    for i in range(K):
+        R.append(("stmt", (kws[i], "expr", "E%d" % i, ";"), ("ctx", i)))
+        R.append(("stmt", (kws[i], "error", "E%d" % i, ";"), ("val", -(i + 2))))
+    NT = {"S'", "prog", "stmt", "expr", "term"}
+    by_lhs = {}
+    for ri, r in enumerate(R):
+        by_lhs.setdefault(r[0], []).append(ri)
+    nullable = {"prog"}
+    first = {n: set() for n in NT}
+    changed = True
+    while changed:
+        changed = False
+        for lhs, rhs, _ in R:
+            for x in rhs:
+                add = first[x] if x in NT else {x}
+                if not add <= first[lhs]:
+                    first[lhs] |= add; changed = True
+                if x not in nullable:
+                    break
+    def first_of(seq, la):
+        out = set()
+        for x in seq:
+            if x in NT:
+                out |= first[x]
+                if x not in nullable:
+                    return out
+            else:
+                out.add(x); return out
+        out.add(la); return out
+    def closure(items):
+        items = set(items); work = list(items)
+        while work:
+            ri, dot, la = work.pop()
+            rhs = R[ri][1]
+            if dot < len(rhs) and rhs[dot] in NT:
+                for l2 in first_of(rhs[dot + 1:], la):
+                    for rj in by_lhs[rhs[dot]]:
+                        it = (rj, 0, l2)
+                        if it not in items:
+                            items.add(it); work.append(it)
+        return frozenset(items)
+    start = closure({(0, 0, "$")})
+    states = [start]; index = {start: 0}; trans = []
+    k = 0
+    while k < len(states):
+        st = states[k]; moves = {}
+        for ri, dot, la in st:
+            rhs = R[ri][1]
+            if dot < len(rhs):
+                moves.setdefault(rhs[dot], set()).add((ri, dot + 1, la))
+        tr = {}
+        for x in sorted(moves):
+            c = closure(moves[x])
+            if c not in index:
+                index[c] = len(states); states.append(c)
+            tr[x] = index[c]
+        trans.append(tr); k += 1
+    action = []
+    for si, st in enumerate(states):
+        a = {}
+        for x, t in trans[si].items():
+            if x not in NT:
+                a[x] = ("s", t)
+        for ri, dot, la in st:
+            if dot == len(R[ri][1]):
+                act = ("acc",) if ri == 0 else ("r", ri)
+                if la in a and a[la] != act:
+                    raise RuntimeError("big grammar: conflict in the reference tables")
+                a[la] = act
+        action.append(a)
+    _BIG_TABLES[key] = (R, NT, trans, action)
+    return _BIG_TABLES[key]
+
+
+def big_eval(text, kws, ends):
+    """independent evaluation: textbook canonical LR(1) tables (built in python) driven by the README's recovery algorithm: on an error report it, then with the
+    error symbol as the lookahead reduce/pop until it can be shifted, shift it, discard terms until one has an action, continue"""
+    import re
+    toks = []
+    pos = 0
+    tok_re = re.compile(r"\s*(kw\d\d|e\d\d|[A-Z]|[0-9]+|[+();])")
+    while pos < len(text):
+        m = tok_re.match(text, pos)
+        if not m:
+            if text[pos:].strip() == "":
+                break
+            return None          # lexical error: not generated
+        toks.append(m.group(1)); pos = m.end()
+    M = (1 << 64) - 1
+    def mix64(x):
+        x = (x + 0x9e3779b97f4a7c15) & M; x = ((x ^ (x >> 30)) * 0xbf58476d1ce4e5b9) & M; x = ((x ^ (x >> 27)) * 0x94d049bb133111eb) & M; return x ^ (x >> 31)
+    def hcomb(h, v): return mix64((h * 0x100000001b3 + v + 0x632be59bd9b4e019) & M)
+    R, NT, trans, action = big_tables(kws, ends)
+    def sym(t):
+        if t == "$": return "$"
+        if t.isdigit(): return "num"
+        if t in ends: return "E%d" % ends.index(t)
+        return t
+    toks.append("$")
+    st = [0]; vs = []; p = 0; errs = 0; recovering = False; consuming = False
+    FAIL = lambda: {"acc": 0, "n": 0, "h": 0x51ed, "errs": errs}
+    steps = 0
+    while True:
+        steps += 1
+        if steps > 200000: raise RuntimeError("big_eval: runaway")
+        la = "error" if recovering else sym(toks[p])
+        act = action[st[-1]].get(la)
+        if act is None:
+            if consuming:
+                if toks[p] == "$": return FAIL()
+                p += 1; continue
+            if not recovering:
+                errs += 1; recovering = True; continue
+            st.pop()
+            if vs: vs.pop()
+            if not st: return FAIL()
+            continue
+        consuming = False
+        if act[0] == "s":
+            if la == "error":
+                st.append(act[1]); vs.append(None); recovering = False; consuming = True
+            else:
+                st.append(act[1]); vs.append(toks[p]); p += 1
+        elif act[0] == "r":
+            lhs, rhs, tag = R[act[1]]
+            n = len(rhs)
+            args = vs[len(vs) - n:] if n else []
+            if n:
+                del vs[len(vs) - n:]; del st[len(st) - n:]
+            if tag[0] == "list0": v = []
+            elif tag[0] == "append": v = args[0] + [args[1]]
+            elif tag[0] == "val": v = tag[1]
+            elif tag[0] == "e": v = args[tag[1]]
+            elif tag[0] == "add": v = (args[0] + args[2]) % 1000
+            elif tag[0] == "num":
+                v = 0
+                for c in args[0]: v = (v * 10 + int(c)) % 1000
+            elif tag[0] == "ctx": v = tag[1] * 1000 + args[1]
+            st.append(trans[st[-1]][lhs]); vs.append(v)
+        else:
+            out = vs[0]
+            h = 0x51ed
+            for v in out: h = hcomb(h, (v + 7) & M)
+            return {"acc": 1, "n": len(out), "h": h, "errs": errs}
+
+
+def big_texts(seed, n, K, kws, ends):
+    import random
+    rnd = random.Random(seed * 77 + 5)
+    def expr(d):
+        k = rnd.randint(1, 3); ps = []
+        for _ in range(k):
+            if d < 4 and rnd.random() < 0.35:
+                ps += ["("] + expr(d + 1) + [")"]
+            else:
+                ps.append(str(rnd.randint(0, 9999)))
+            ps.append("+")
+        return ps[:-1]
+    out = []
+    for _ in range(n):
+        stmts = []
+        for _ in range(rnd.randint(1, 8)):
+            i = rnd.randrange(K); ex = expr(0); tk = [kws[i]] + ex + [ends[i], ";"]
+            r = rnd.random()
+            if r < 0.06: tk[-2] = ends[(i + 1 + rnd.randrange(K - 1)) % K]     # terminator of another context
+            elif r < 0.10: del tk[rnd.randrange(len(tk))]                        # a piece missing (anywhere, also inside brackets)
+            elif r < 0.30:                                                       # junk somewhere inside the expression: the deeper the bracket, the later its error state was numbered
+                junk = rnd.choice(["+", "+ +", "7 7", kws[rnd.randrange(K)], ends[rnd.randrange(K)], "( )", "(", "7 ("])
+                tk.insert(1 + rnd.randrange(len(ex) + 1), junk)
+            elif r < 0.33: tk.insert(rnd.randrange(len(tk) + 1), rnd.choice([")", ";", "7"]))
+            stmts.append(" ".join(tk) if rnd.random() < 0.7 else "".join(t if t[0] in "+();" else " " + t + " " for t in tk))
+        text = rnd.choice(["", " ", "\n"]).join(stmts)
+        if rnd.random() < 0.05: text = text.rstrip("; ")                         # input ends while a statement is open
+        out.append({"text": text})
+    return out
+
+
+def run_big(pid, tier, seed, work, viol_dir):
+    K = 30
+    kws = ["kw%02d" % i for i in range(K)]; ends = ["e%02d" % i if i % 3 else chr(ord('A') + i // 3) for i in range(K)]
+    texts = [t for t in big_texts(seed, {"quick": 60, "thorough": 600}[tier], K, kws, ends) if big_eval(t["text"], kws, ends) is not None]
+    src_text, kws, ends = big_grammar_source(K, texts)
+    src = os.path.join(work, "big.cpp")
+    open(src, "w").write(src_text)
+    violations = []; evaluations = 0; nontrivial = set(); notes = []; labels = {}
+    res = compile_and_run(src, "clang++" if (seed % 2) else "g++")
+    cxx = "clang++" if (seed % 2) else "g++"
+    if not res["compiled"]:
+        if res.get("timeout"):
+            notes.append("compile of big.cpp hit the time ceiling (inconclusive)")
+        else:
+            vp = os.path.join(viol_dir, "%s_compile_big.json" % pid)
+            json.dump({"check": pid, "kind": "programbig", "compiler": cxx, "source": src_text, "what": "generated program does not compile", "log": res["log"], "texts": texts, "K": K}, open(vp, "w"))
+            errs = [l for l in res["log"].splitlines() if "error" in l][:1]
+            violations.append(("a grammar of %d rules / %d terms with custom limits does not compile with %s: %s" % (K + 7, 2 * K + 5, cxx, errs[0][:200] if errs else ""), vp))
+        return violations, evaluations, nontrivial, notes, labels
+    out = res["out"]
+    info = [l for l in out.splitlines() if l.startswith("BIGINFO")]
+    exc = [l for l in out.splitlines() if l.startswith("BIGEXC")]
+    if exc or not info:
+        vp = os.path.join(viol_dir, "%s_big_construct.json" % pid)
+        json.dump({"check": pid, "kind": "programbig", "compiler": cxx, "source": src_text, "what": "construction failed", "texts": texts, "K": K}, open(vp, "w"))
+        violations.append(("a conflict-free grammar of %d rules / %d terms could not be constructed with limits that suffice (%s): %s" % (K + 7, 2 * K + 5, cxx, exc[0][7:200] if exc else "no output, rc=%s" % res.get("rc")), vp))
+        return violations, evaluations, nontrivial, notes, labels
+    try:
+        labels["big-grammar:lr1-states"] = int(info[0].split("=")[1])
+    except Exception:
+        pass
+    got = {}
+    for ln in out.splitlines():
+        if ln.startswith("BIG "):
+            w = ln.split(); got[int(w[1])] = {f.split("=")[0]: int(f.split("=")[1]) for f in w[2:]}
+    threw = {}
+    for ln in out.splitlines():
+        if ln.startswith("BIGX "):
+            w = ln.split(" ", 2); threw[int(w[1])] = w[2] if len(w) > 2 else ""
+    for k, t in enumerate(texts):
+        evaluations += 1
+        want = big_eval(t["text"], kws, ends); d = got.get(k); what = None
+        if k in threw:
+            what = "big grammar: parse() threw '%s'" % threw[k][:120]
+        elif d is None:
+            what = "program produced no result line (crashed?) rc=%s" % res.get("rc")
+        elif d["acc"] != want["acc"]:
+            what = "big grammar: " + ("recovery failed although the input continues with a synchronising ';'" if want["acc"] else "a parse that runs out of input while discarding returned a value")
+        elif want["acc"] and (d["n"] != want["n"] or d["h"] != want["h"]):
+            what = "big grammar: values kept/discarded by recovery (or computed by the rules) differ from the independent evaluation"
+        elif d["errs"] != want["errs"]:
+            what = "big grammar: %d syntax errors reported, %d expected" % (d["errs"], want["errs"])
+        if what:
+            vp = os.path.join(viol_dir, "%s_big_%s.json" % (pid, hashlib.sha1(t["text"].encode()).hexdigest()[:10]))
+            json.dump({"check": pid, "kind": "programbig", "compiler": cxx, "what": what, "observed": d, "expected": want, "texts": [t], "K": K, "source": big_grammar_source(K, [t])[0]}, open(vp, "w"))
+            violations.append((what + " (%s)" % cxx, vp))
+            continue
+        if want["errs"] or want["n"] >= 3:
+            nontrivial.add(("big", t["text"]))
+        labels["big-grammar:" + ("recovered" if want["errs"] and want["acc"] else "failed" if not want["acc"] else "clean")] = labels.get("big-grammar:" + ("recovered" if want["errs"] and want["acc"] else "failed" if not want["acc"] else "clean"), 0) + 1
+    return violations, evaluations, nontrivial, notes, labels
+
 # ---- C17b: rules that mention symbols which are not declared ------------------------------------------------------
 def render_c17b(cases):
     parts = [PRELUDE]
@@ -641,6 +933,11 @@ def emit_cases(seed, n, work, spelling=True, only_class=None, named_terms=False,
 def run(pid, tier, seed, work, viol_dir, known_ids=()):
     t0 = time.time()
     excluded = {}
+    if pid in ("C08", "C12"):
+        violations, evaluations, nontrivial, notes, labels = run_big(pid, tier, seed, work, viol_dir)
+        for n in notes:
+            print("NOTE:", n)
+        return (1 if violations else 0), {"evaluations": evaluations, "nontrivial": len(nontrivial), "labels": labels, "samples": [{"big-grammar": "30 statement contexts kwNN expr eNN ';', each with an error rule, bracket error rule, list-level error rule; see vlib/compiled.py big_grammar_source"}], "violations": violations, "notes": notes, "wall": time.time() - t0, "programs": 1, "excluded_known": {}}
     if pid == "C03":
         ok, er, log = BUILD.ensure_emitter("e_regex", REPO)
         if not ok:
@@ -1016,6 +1313,23 @@ def replay(path):
         print(res["log"][-1500:])
         return 1
     print(res["out"][:3000])
+    if d["kind"] == "programbig":
+        K = d.get("K", 24); kws = ["kw%02d" % i for i in range(K)]; ends = ["e%02d" % i if i % 3 else chr(ord('A') + i // 3) for i in range(K)]
+        bad = 0 if any(l.startswith("BIGINFO") for l in res["out"].splitlines()) else 1
+        seen = 0
+        for ln in res["out"].splitlines():
+            if ln.startswith("BIGX ") or ln.startswith("BIGEXC"):
+                bad += 1
+            if ln.startswith("BIG "):
+                seen += 1
+                w = ln.split(); k = int(w[1]); vals = {f.split("=")[0]: int(f.split("=")[1]) for f in w[2:]}
+                want = big_eval(d["texts"][k]["text"], kws, ends)
+                if vals["acc"] != want["acc"] or (want["acc"] and (vals["n"] != want["n"] or vals["h"] != want["h"])) or vals["errs"] != want["errs"]:
+                    bad += 1
+        if seen < len(d["texts"]):
+            bad += 1          # a text without a result line: the program died
+        print("REPLAY %s %s" % (d["check"], "FAIL" if bad else "PASS"))
+        return 1 if bad else 0
     if d["kind"] == "program07v":
         bad = 0
         for ln in res["out"].splitlines():
